@@ -11,6 +11,7 @@ mod w_codec;
 mod w_iovec;
 mod w_stream;
 mod w_threads;
+mod w_vtime;
 
 use std::path::Path;
 
@@ -23,7 +24,7 @@ pub const PROPS: &[&str] = &[
     "C18", "C19", "C20",
 ];
 
-pub static WORLDS: &[&'static dyn World] = &[&w_iovec::IovecWorld, &w_codec::CodecWorld, &w_codec::LongWorld, &w_stream::StreamWorld, &w_threads::ThreadsWorld];
+pub static WORLDS: &[&'static dyn World] = &[&w_iovec::IovecWorld, &w_codec::CodecWorld, &w_codec::LongWorld, &w_stream::StreamWorld, &w_threads::ThreadsWorld, &w_vtime::VtimeWorld];
 
 const DEFAULT_SEED: u64 = 20261004;
 
@@ -72,6 +73,7 @@ fn jobs_for(prop: &'static str, thorough: bool, scale: f64) -> (Vec<Job>, &'stat
         "C06" | "C08" => (vec![mk("stream", 1.0)], "exploration"),
         "C13" => (vec![mk("threads", 1.0)], "exploration"),
         "C18" => (vec![mk("threads", 1.0)], "fault_enumeration"),
+        "C14" | "C19" => (vec![mk("vtime", 1.0)], "exploration"),
         "C05" => (vec![mk("iovec", 0.7), mk("codec", 0.6), mk("stream", 0.4)], "exploration"),
         "C10" => (vec![mk("iovec", 0.5), mk("codec", 0.4), mk("stream", 0.3), mk("longrun", 1.0)], "exploration"),
         "C17" => (vec![mk("iovec", 0.6), mk("codec", 0.6)], "exploration"),
@@ -105,6 +107,7 @@ fn main() {
             let to: u64 = args[7].parse().unwrap();
             worker_main(w, ask, seed, from, to, Path::new(&args[8]), 3);
         }
+        "exec1" => exec1_main(),
         "check" => {
             let prop = prop_static(&args[2]);
             let thorough = args.get(3).map(|s| s == "thorough").unwrap_or(false)
